@@ -73,7 +73,13 @@ def run(ctx) -> None:
     for prim, base_call in (("_put", "super()._put"), ("_get", "super()._get"), ("_init", "super()._init")):
         mf = q.methods.get(prim)
         if mf is None:
-            raise AnalysisError(f"anchor vanished: SkipRepeatsQueue.{prim}")
+            # the base primitive is used as is: nothing to delegate; the ownership rule decides whether that is enough
+            ctx.ok(RD, f"SkipRepeatsQueue.{prim} (inherited from the base queue)", q.loc, nontrivial=False)
+            if prim == "_put":
+                ctx.viol(RB, "SkipRepeatsQueue._put records the enqueued item", "there is no _put override: the enqueued item is not recorded inside the queue's critical section", q.loc)
+            if prim == "_get":
+                ctx.viol(RR, "SkipRepeatsQueue._get", "there is no _get override: _last_item is never cleared when its item is dequeued", q.loc)
+            continue
         paths = en.run(mf)
         ok = all(len([e for e in p.evs if e.kind == "call" and e.extra.get("func") == base_call]) == 1 for p in paths)
         ctx.check(ok, RD, f"SkipRepeatsQueue.{prim}", f"{prim} does not call {base_call}() exactly once on every path (an item would be lost or duplicated)", mf.loc)
